@@ -309,6 +309,8 @@ def compare_read(c, out):
         wo = status_of(o["err"], o["panic"])
         if tuple(out[idx][:2]) != wo:
             diffs.append("GetOriginalDirectory %s: model %s relic %s" % (k, out[idx][:2], wo))
+        elif wo == (0, 0) and (str(out[idx][2]), str(out[idx][3])) != (o["cd"], o["eod"]):
+            diffs.append("GetOriginalDirectory %s: bytes differ" % k)
     # streaming layout pass: per-file results until the first failure
     s = c["stream_layout"]
     if not (s["err"] or s["panic"]):
